@@ -80,6 +80,12 @@ def make_loss(cfg):
                 icp = cfg["ic"]["polys"]
                 kw["initial_condition_fun"] = lambda x: jnp.stack([poly_jax(p, x) for p in icp])
             L = jinns.loss.LossPDENonStatio(u=u, dynamic_loss=Eq() if cfg.get("dyn", True) else None, params=P, loss_weights=lw, **kw)
+    if cfg.get("reweight"):
+        # the weight is replaced on the existing object (eqx.tree_at does not re-run __post_init__): the loss must use the weight it holds now
+        w = cfg.get("w_dyn", 1.0)
+        dummy = dict(cfg, w_dyn=([7.0] * len(w) if isinstance(w, (list, tuple)) else 7.0), reweight=False)
+        _, _, L0 = make_loss(dummy)
+        L = eqx.tree_at(lambda l: l.loss_weights.dyn_loss, L0, W(w))
     return u, P, L
 
 
@@ -123,4 +129,5 @@ def rand_base(rng, kind=None, ncomp=None):
                res=[(prand(rng, nv, 2, 3) or {(0,) * nv: 1}, rng.randint(-2, 2)) for _ in range(nres)],
                batch=[[dy(rng) for _ in range(nv)] for _ in range(rng.randint(1, 9))])
     cfg["w_dyn"] = [rng.randint(0, 4) / 2 for _ in range(nres)] if rng.random() < 0.5 else rng.randint(0, 6) / 2
+    cfg["reweight"] = rng.random() < 0.3
     return cfg
